@@ -166,7 +166,7 @@ fn subst(doc: &str, which: Option<usize>, inline_alt: &str, block_alt: &str) -> 
 }
 
 pub fn bnd_c13() {
-    let widths: Vec<usize> = if thorough() { (1..=40).chain([60, 80]).collect() } else { vec![1, 2, 3, 5, 8, 12, 20, 40, 80] };
+    let widths: Vec<usize> = if thorough() { (1..=100).collect() } else { (1..=30).chain([40, 60, 80, 100]).collect() };
     let mut rep = Report::new("bnd_c13", &format!("10 table-free, pre-free documents; each collapsible white-space run replaced (one at a time and all at once) by 9 inline / 6 block-level \
         alternatives (newlines, tabs, runs, adjacent comments, a span around the white space, an empty span); {} widths; plain decorator", widths.len()));
     for doc in C13_DOCS {
@@ -241,11 +241,11 @@ fn lines_dbg(ls: &[TaggedLine<Vec<RichAnnotation>>]) -> String {
 pub fn bnd_c18() {
     let sk = skeleton();
     let nh = sk.iter().filter(|p| p.is_err()).count();
-    let max_hidden = if thorough() { 3 } else { 2 };
+    let max_hidden = if thorough() { 4 } else { 3 };
     let mut rep = Report::new("bnd_c18", &format!("one skeleton document with {} hideable elements (p, li, a, span, b, h2, p in blockquote, tr, table; several carrying ids); every subset of at most {} of them \
         hidden by `.h{{display:none;}}` (and, for single elements, by an inline style with document CSS enabled); widths 20/40/80; rich lines (fragment markers visible) and plain string with footnotes", nh, max_hidden));
     let mut subsets: Vec<Vec<usize>> = vec![];
-    for a in 0..nh { subsets.push(vec![a]); for b in a + 1..nh { subsets.push(vec![a, b]); if max_hidden >= 3 { for c in b + 1..nh { subsets.push(vec![a, b, c]); } } } }
+    for a in 0..nh { subsets.push(vec![a]); for b in a + 1..nh { subsets.push(vec![a, b]); if max_hidden >= 3 { for c in b + 1..nh { subsets.push(vec![a, b, c]); if max_hidden >= 4 { for d in c + 1..nh { subsets.push(vec![a, b, c, d]); } } } } } }
     for hs in &subsets { for inline_style in [false, true] {
         if inline_style && hs.len() != 1 { continue; }
         let mut hidden = String::new();
@@ -316,7 +316,7 @@ pub fn bnd_c09() {
     let inner = [("<ul><li>", "</li></ul>"), ("<h2>", "</h2>"), ("<blockquote>", "</blockquote>"), ("<table><tr><td>", "</td></tr></table>"), ("<ol><li>", "</li></ol>"), ("<p>", "</p>"), ("<div>", "</div>")];
     let inl = ["em", "strong", "code", "s", "a"];
     let mut rep = Report::new("bnd_c09", "outer block (li, blockquote, div, td, ol li, dd) x one or two nested annotating inline elements (em, strong, code, s, a) x inner block \
-        (ul li, h2, blockquote, td, ol li, p, div) with unique tokens before, inside and after the inner block; widths 8/20/80; rich decorator: every token carries exactly the annotations of its annotating ancestors, outermost first");
+        (ul li, h2, blockquote, td, ol li, p, div) with unique tokens before, inside and after the inner block; widths 4/8/13/20/80; rich decorator: every token carries exactly the annotations of its annotating ancestors, outermost first");
     for (oo, oc) in outer { for i1 in inl { for i2 in ["", "em", "strong", "code"] { for (io, ic) in inner {
         if i2 == i1 { continue; }
         // <outer> pre <i1> [<i2>] aa <inner> bb </inner> cc [</i2>] </i1> post </outer>
@@ -328,7 +328,7 @@ pub fn bnd_c09() {
         html.push_str(&format!("</{}>", i1)); html.push_str(" post"); html.push_str(oc);
         let mut inside: Vec<RichAnnotation> = vec![ann(i1).unwrap()];
         if !i2.is_empty() { inside.push(ann(i2).unwrap()); }
-        for width in [8usize, 20, 80] {
+        for width in [4usize, 8, 13, 20, 80] {
             let input = format!("width={} html={}", width, html);
             rep.case(&input);
             let h = html.clone();
@@ -447,6 +447,279 @@ pub fn bnd_tables() {
                     let want_ch = match (above, below) { (true, true) => '\u{253c}', (true, false) => '\u{2534}', (false, true) => '\u{252c}', (false, false) => '\u{2500}' };
                     if ch != want_ch { rep.found(&input, &format!("line {} column {}: {:?} but bar above={} below={}; output {:?}", li, i, ch, above, below, out)); break 'outer; }
                 }
+            }
+        }
+    }
+    rep.finish();
+}
+
+// ------------------------------------------------------------------------------------------------------------------------------
+// C07: list numbering and alignment (do_render_node Ol/Ul arms, calc_ol_prefix_size, append_subrender as wholes).
+pub fn bnd_c07() {
+    let starts: Vec<i64> = if thorough() { vec![1, 0, -1, -3, 7, 8, 9, 95, 98, 99, 100, 998, -10, -11] } else { vec![1, 0, -1, 8, 9, 98, 99, -10] };
+    let mut rep = Report::new("bnd_c07", &format!("ordered lists with start in {:?}, 1..=12 items (one item with text that wraps, one with a nested ordered or unordered list), widths 8..=30 step 1; plain decorator: \
+        item k carries the number start+k-1, all markers of a list are padded to one common width (the widest of first and last), continuation lines and nested lists are indented by that width, lines within the width", starts));
+    for &st in &starts { for n in 1..=12usize { for nested in [0, 1, 2] {
+        let mut html = if st == 1 { String::from("<ol>") } else { format!("<ol start=\"{}\">", st) };
+        for k in 0..n {
+            if k == 1 { html.push_str("<li>wa wb wc wd we wf wg wh</li>"); }
+            else if k == 2 && nested == 1 { html.push_str("<li>par<ol><li>ca</li><li>cb</li></ol></li>"); }
+            else if k == 2 && nested == 2 { html.push_str("<li>par<ul><li>ca</li><li>cb</li></ul></li>"); }
+            else { html.push_str(&format!("<li>t{}</li>", k)); }
+        }
+        html.push_str("</ol>");
+        let first = format!("{}. ", st); let last = format!("{}. ", st + n as i64 - 1);
+        let pw = first.len().max(last.len());
+        for width in 8..=30usize {
+            let input = format!("width={} html={}", width, html);
+            rep.case(&input);
+            let h = html.clone();
+            let out = match panic::catch_unwind(move || config::plain().string_from_read(h.as_bytes(), width)) { Ok(Ok(s)) => s, Ok(Err(_)) => continue, Err(_) => { rep.found(&input, "panic"); continue; } };
+            let lines: Vec<&str> = out.lines().collect();
+            if let Some(l) = lines.iter().find(|l| l.chars().count() > width) { rep.found(&input, &format!("line {:?} wider than {}", l, width)); continue; }
+            // top-level lines: either "<marker padded to pw><text>" or "<pw spaces><continuation / nested>"
+            let mut k = 0usize; let mut bad = None;
+            for l in &lines {
+                if l.is_empty() { continue; }
+                let indent = " ".repeat(pw);
+                if l.starts_with(&indent) { continue; }
+                let want = format!("{:<w$}", format!("{}. ", st + k as i64), w = pw);
+                if !l.starts_with(&want) && !(l.trim_end() == want.trim_end()) { bad = Some(format!("line {:?}: expected marker {:?} (item {})", l, want, k + 1)); break; }
+                k += 1;
+            }
+            if let Some(b) = bad { rep.found(&input, &format!("{}; output {:?}", b, out)); continue; }
+            if k != n { rep.found(&input, &format!("{} numbered items, expected {}; output {:?}", k, n, out)); continue; }
+            if nested != 0 && n > 2 {
+                let want = if nested == 1 { format!("{}1. ca", " ".repeat(pw)) } else { format!("{}* ca", " ".repeat(pw)) };
+                if !lines.iter().any(|l| *l == want) { rep.found(&input, &format!("nested list line {:?} missing; output {:?}", want, out)); }
+            }
+        }
+    }}}
+    rep.finish();
+}
+
+// ------------------------------------------------------------------------------------------------------------------------------
+// C14: fragment markers (process_dom_node id handling, insert_child placement, record_frag_start, add_line / flush_wrapping hand-over).
+pub fn bnd_c14() {
+    // (html, list of (id, first token of the element or "" when it has no text))
+    let docs: Vec<(&str, Vec<(&str, &str)>)> = vec![
+        ("<p id=\"a\">ta tb</p><p id=\"b\">tc</p>", vec![("a", "ta"), ("b", "tc")]),
+        ("<div id=\"d\"><p>ta</p><p id=\"p2\">tb tc</p></div>", vec![("d", "ta"), ("p2", "tb")]),
+        ("<ul><li id=\"l1\">ta</li><li id=\"l2\">tb <span id=\"s\">tc</span></li></ul>", vec![("l1", "ta"), ("l2", "tb"), ("s", "tc")]),
+        ("<h2 id=\"h\">ta tb</h2><blockquote id=\"q\">tc td</blockquote>", vec![("h", "ta"), ("q", "tc")]),
+        ("<p>ta <a id=\"an\" href=\"u\">tb</a> tc <em id=\"e\">td</em></p>", vec![("an", "tb"), ("e", "td")]),
+        ("<table id=\"t\"><tr><td id=\"c1\">ta</td><td>tb</td></tr><tr id=\"r2\"><td>tc</td><td id=\"c4\">td</td></tr></table>", vec![("t", "ta"), ("c1", "ta"), ("r2", "tc"), ("c4", "td")]),
+        ("<p id=\"a\">ta</p><table><tr><td id=\"c\">tb</td></tr></table><p id=\"z\">tc</p>", vec![("a", "ta"), ("c", "tb"), ("z", "tc")]),
+        ("<div id=\"w\"><table><tr><td>ta</td></tr></table></div><p id=\"z\">tb</p>", vec![("w", "ta"), ("z", "tb")]),
+        ("<p id=\"long\">tahhhhhhhhhhhh tb</p><ol><li id=\"o1\">tc</li><li id=\"o2\">td</li></ol>", vec![("long", "tahhhhhhhhhhhh"), ("o1", "tc"), ("o2", "td")]),
+        ("<dl><dt id=\"dt\">ta</dt><dd id=\"dd\">tb tc</dd></dl><pre id=\"pre\">td\nte</pre>", vec![("dt", "ta"), ("dd", "tb"), ("pre", "td")]),
+    ];
+    let widths: Vec<usize> = if thorough() { (3..=40).collect() } else { vec![3, 4, 6, 10, 16, 40] };
+    let mut rep = Report::new("bnd_c14", &format!("10 documents with id attributes on p, div, li, span, h2, blockquote, a, em, table, tr, td, dt, dd, pre (elements next to tables and borders included); {} widths; \
+        rich lines: every id yields exactly one FragmentStart, and the first text after it (reading order) starts with the first text of that element", widths.len()));
+    for (html, ids) in &docs { for &w in &widths {
+        let input = format!("width={} html={}", w, html);
+        rep.case(&input);
+        let h = html.to_string();
+        let lines = match panic::catch_unwind(move || config::rich().lines_from_read(h.as_bytes(), w)) { Ok(Ok(l)) => l, Ok(Err(_)) => continue, Err(_) => { rep.found(&input, "panic"); continue; } };
+        // flatten to a sequence of events
+        let mut ev: Vec<(bool, String)> = vec![];   // (is_fragment, text)
+        for l in &lines { for e in l.iter() { match e {
+            TaggedLineElement::FragmentStart(f) => ev.push((true, f.clone())),
+            TaggedLineElement::Str(ts) => { let t: String = ts.s.chars().filter(|c| c.is_alphanumeric()).collect(); if !t.is_empty() { ev.push((false, t)); } }
+        }}}
+        for (id, tok) in ids {
+            let pos: Vec<usize> = ev.iter().enumerate().filter(|(_, e)| e.0 && e.1 == *id).map(|(i, _)| i).collect();
+            if pos.len() != 1 { rep.found(&input, &format!("id {:?} yields {} fragment markers; events {:?}", id, pos.len(), ev)); continue; }
+            // the text that follows (concatenated, hard wrapping may split a token over lines)
+            let after: String = ev[pos[0] + 1..].iter().filter(|e| !e.0).map(|e| e.1.as_str()).collect();
+            let head: String = tok.chars().take(w.min(tok.len())).collect();
+            if !tok.is_empty() && !after.starts_with(&head) { rep.found(&input, &format!("marker {:?} is followed by {:?}, expected the element's text {:?}; events {:?}", id, &after[..after.len().min(12)], tok, ev)); }
+        }
+    }}
+    rep.finish();
+}
+
+// ------------------------------------------------------------------------------------------------------------------------------
+// C20: selectors against an independent reference matcher over a generated element tree (parser + do_matches + rule application).
+#[derive(Clone)]
+struct El { name: &'static str, class: Option<&'static str>, id: Option<String>, kids: Vec<El>, tok: String }
+fn gen_tree(r: &mut Lcg, depth: u32, n: &mut u32) -> El {
+    *n += 1;
+    let name = if depth > 0 && r.below(3) == 0 { "span" } else { "div" };
+    let class = match r.below(4) { 0 => Some("a"), 1 => Some("b"), _ => None };
+    let id = if r.below(6) == 0 { Some(format!("i{}", n)) } else { None };
+    let tok = format!("k{}", n);
+    let mut kids = vec![];
+    if depth < 3 && name == "div" { for _ in 0..r.below(4) { kids.push(gen_tree(r, depth + 1, n)); } }
+    El { name, class, id, kids, tok }
+}
+fn tree_html(e: &El, out: &mut String) {
+    out.push_str(&format!("<{}", e.name));
+    if let Some(c) = e.class { out.push_str(&format!(" class=\"{}\"", c)); }
+    if let Some(i) = &e.id { out.push_str(&format!(" id=\"{}\"", i)); }
+    out.push_str(&format!(">{} ", e.tok));
+    for k in &e.kids { tree_html(k, out); out.push(' '); }
+    out.push_str(&format!("</{}>", e.name));
+}
+#[derive(Clone, Debug)]
+struct Step { name: Option<&'static str>, class: Option<&'static str>, id: Option<String>, nth: Option<(i32, i32)> }
+fn step_css(s: &Step) -> String {
+    let mut o = String::new();
+    if let Some(n) = s.name { o.push_str(n); }
+    if let Some(c) = s.class { o.push_str(&format!(".{}", c)); }
+    if let Some(i) = &s.id { o.push_str(&format!("#{}", i)); }
+    if o.is_empty() { o.push('*'); }
+    if let Some((a, b)) = s.nth { o.push_str(&format!(":nth-child({}n{}{})", a, if b < 0 { "-" } else { "+" }, b.abs())); }
+    o
+}
+fn step_ok(s: &Step, path: &[(&El, usize)]) -> bool {
+    // path: root … element, each with its 1-based index among the element children of its parent
+    let (e, idx) = path[path.len() - 1];
+    if path.len() < 2 { return false; }     // path[0] is the document node, which is not an element
+    if let Some(n) = s.name { if e.name != n { return false; } }
+    if let Some(c) = s.class { if e.class != Some(c) { return false; } }
+    if let Some(i) = &s.id { if e.id.as_ref() != Some(i) { return false; } }
+    if let Some((a, b)) = s.nth {
+        let i = idx as i64; let (a, b) = (a as i64, b as i64);
+        let ok = if a == 0 { i == b } else { (i - b) % a == 0 && (i - b) / a >= 0 };
+        if !ok { return false; }
+    }
+    true
+}
+fn sel_matches(steps: &[Step], combs: &[char], path: &[(&El, usize)]) -> bool {
+    // steps left to right; combs[i] between steps[i] and steps[i+1]
+    let n = steps.len();
+    if !step_ok(&steps[n - 1], path) { return false; }
+    if n == 1 { return true; }
+    match combs[n - 2] {
+        '>' => path.len() >= 2 && sel_matches(&steps[..n - 1], &combs[..n - 2], &path[..path.len() - 1]),
+        _ => (1..path.len()).any(|l| sel_matches(&steps[..n - 1], &combs[..n - 2], &path[..l])),
+    }
+}
+fn walk<'a>(e: &'a El, idx: usize, path: &mut Vec<(&'a El, usize)>, steps: &[Step], combs: &[char], inherited: bool, out: &mut Vec<(String, bool)>) {
+    path.push((e, idx));
+    let red = inherited || sel_matches(steps, combs, path);
+    out.push((e.tok.clone(), red));
+    for (i, k) in e.kids.iter().enumerate() { walk(k, i + 1, path, steps, combs, red, out); }
+    path.pop();
+}
+pub fn bnd_c20() {
+    let (ntree, nsel) = if thorough() { (600u32, 120u32) } else { (200u32, 80u32) };
+    let mut rep = Report::new("bnd_c20", &format!("{} seeded element trees (div/span, depth <= 4, up to 3 children, classes a/b, some ids, text mixed with element children) x {} seeded selectors \
+        (1..3 compound steps of element name / class / id / universal, child and descendant combinators, :nth-child(an+b) with a in -2..=2 and b in -2..=3 on non-root steps): \
+        the tokens coloured by `sel{{color:#ff0000;}}` are exactly those with an ancestor-or-self matched by an independent reference matcher", ntree, nsel));
+    let mut r = Lcg(0x51ed27bd ^ seed());
+    for _ in 0..ntree {
+        let mut n = 0;
+        let root = gen_tree(&mut r, 0, &mut n);
+        let mut html = String::new(); tree_html(&root, &mut html);
+        let ids: Vec<String> = { let mut v = vec![]; fn coll(e: &El, v: &mut Vec<String>) { if let Some(i) = &e.id { v.push(i.clone()); } for k in &e.kids { coll(k, v); } } coll(&root, &mut v); v };
+        for _ in 0..nsel {
+            let ns = 1 + r.below(3) as usize;
+            let mut steps = vec![]; let mut combs = vec![];
+            for s in 0..ns {
+                let name = match r.below(4) { 0 => Some("div"), 1 => Some("span"), _ => None };
+                let class = match r.below(4) { 0 => Some("a"), 1 => Some("b"), _ => None };
+                let id = if !ids.is_empty() && r.below(8) == 0 { Some(ids[r.below(ids.len() as u64) as usize].clone()) } else { None };
+                let nth = if r.below(3) == 0 { Some((r.below(5) as i32 - 2, r.below(6) as i32 - 2)) } else { None };
+                steps.push(Step { name, class, id, nth });
+                if s + 1 < ns { combs.push(if r.below(2) == 0 { '>' } else { ' ' }); }
+            }
+            let mut css = String::new();
+            for (i, s) in steps.iter().enumerate() { css.push_str(&step_css(s)); if i < combs.len() { css.push_str(if combs[i] == '>' { " > " } else { " " }); } }
+            // the root's position among <body>'s children is 1 (it is the only child)
+            let mut want = vec![]; let mut path = vec![];
+            // model <body> as an unnamed parent so that nth-child and combinators see a parent for the root
+            // html5ever wraps the fragment: <html><head></head><body>…</body></html>; body is the 2nd element child of html
+            let body = El { name: "body", class: None, id: None, kids: vec![root.clone()], tok: String::new() };
+            let html_el = El { name: "html", class: None, id: None, kids: vec![], tok: String::new() };
+            let doc = El { name: "#document", class: None, id: None, kids: vec![], tok: String::new() };
+            path.push((&doc, 1usize));
+            path.push((&html_el, 1usize));
+            let on_html = sel_matches(&steps, &combs, &path);
+            path.push((&body, 2usize));
+            let on_body = sel_matches(&steps, &combs, &path);
+            walk(&body.kids[0], 1, &mut path, &steps, &combs, on_html || on_body, &mut want);
+            let input = format!("css={}{{color:#ff0000;}} html={}", css, html);
+            rep.case(&input);
+            let (c2, h2) = (format!("{}{{color:#ff0000;}}", css), html.clone());
+            let lines = match panic::catch_unwind(move || config::rich().add_css(&c2).map(|c| c.lines_from_read(h2.as_bytes(), 200))) { Ok(Ok(Ok(l))) => l, Ok(_) => continue, Err(_) => { rep.found(&input, "panic"); continue; } };
+            let mut got = std::collections::HashMap::new();
+            for l in &lines { for ts in l.tagged_strings() {
+                let red = ts.tag.iter().any(|a| matches!(a, RichAnnotation::Colour(c) if c.r == 255 && c.g == 0 && c.b == 0));
+                for w in ts.s.split_whitespace() { got.insert(w.to_string(), red); }
+            }}
+            for (tok, red) in &want {
+                match got.get(tok) {
+                    Some(g) if g == red => {}
+                    Some(g) => { rep.found(&input, &format!("token {:?}: coloured={} but the reference matcher says {}", tok, g, red)); break; }
+                    None => { rep.found(&input, &format!("token {:?} missing from the output", tok)); break; }
+                }
+            }
+        }
+    }
+    rep.finish();
+}
+
+// ------------------------------------------------------------------------------------------------------------------------------
+// Generic documents (C02, C03, C11, C12, C16-trivial): width bound, text preserved in order, overflow option.
+fn gen_inline(r: &mut Lcg, tok: &mut u32, depth: u32) -> String {
+    let mut s = String::new();
+    for _ in 0..1 + r.below(4) {
+        *tok += 1;
+        match r.below(10) {
+            0 if depth < 2 => { let el = ["em", "strong", "code", "span", "b"][r.below(5) as usize]; s.push_str(&format!("<{}>{}</{}> ", el, gen_inline(r, tok, depth + 1), el)); }
+            1 => s.push_str(&format!("w\u{4e2d}\u{6587}{} ", tok)),
+            2 => s.push_str(&format!("verylongword{}abcdefghij ", tok)),
+            3 => s.push_str(&format!("<a href=\"h{}\">lk{}</a> ", tok, tok)),
+            4 => s.push_str(&format!("x{}<br>", tok)),
+            _ => s.push_str(&format!("w{} ", tok)),
+        }
+    }
+    s
+}
+fn gen_block(r: &mut Lcg, tok: &mut u32, depth: u32) -> String {
+    match r.below(if depth < 2 { 9 } else { 4 }) {
+        0 | 1 => format!("<p>{}</p>", gen_inline(r, tok, 0)),
+        2 => format!("<h{}>{}</h{}>", 1 + depth, gen_inline(r, tok, 1), 1 + depth),
+        3 => { *tok += 1; format!("<pre>p{}  q{}\n\tr{}</pre>", tok, tok, tok) }
+        4 => { let mut s = String::from("<ul>"); for _ in 0..1 + r.below(3) { s.push_str(&format!("<li>{}{}</li>", gen_inline(r, tok, 1), if r.below(3) == 0 { gen_block(r, tok, depth + 1) } else { String::new() })); } s + "</ul>" }
+        5 => { let mut s = format!("<ol start=\"{}\">", r.below(12)); for _ in 0..1 + r.below(3) { s.push_str(&format!("<li>{}</li>", gen_inline(r, tok, 1))); } s + "</ol>" }
+        6 => format!("<blockquote>{}{}</blockquote>", gen_inline(r, tok, 1), gen_block(r, tok, depth + 1)),
+        7 => format!("<div>{}{}</div>", gen_block(r, tok, depth + 1), gen_block(r, tok, depth + 1)),
+        _ => format!("<dl><dt>{}</dt><dd>{}</dd></dl>", gen_inline(r, tok, 1), gen_inline(r, tok, 1)),
+    }
+}
+pub fn bnd_doc() {
+    use html2text::render::TrivialDecorator;
+    use unicode_width::UnicodeWidthStr;
+    let (ndoc, maxw) = if thorough() { (1500u32, 40usize) } else { (300u32, 24usize) };
+    let mut rep = Report::new("bnd_doc", &format!("{} seeded table-free documents (p, h1-h3, pre, ul, ol, blockquote, div, dl nested to depth 3; words, wide characters, over-long words, links, br, nested inline elements), widths 1..={}: \
+        plain: no panic, every line within the width unless an error is returned (C02); with allow_width_overflow: always Ok and the same text when the strict rendering is Ok (C11); \
+        trivial decorator: the non-space characters of the output are exactly those of the document text, in order (C03, C16)", ndoc, maxw));
+    let mut r = Lcg(0x2545f4914f6cdd1d ^ seed());
+    for _ in 0..ndoc {
+        let mut tok = 0;
+        let mut html = String::new();
+        for _ in 0..1 + r.below(3) { html.push_str(&gen_block(&mut r, &mut tok, 0)); }
+        let text: String = { let mut o = String::new(); let mut intag = false; for ch in html.chars() { if ch == '<' { intag = true; } else if ch == '>' { intag = false; } else if !intag && !ch.is_whitespace() { o.push(ch); } } o };
+        for w in 1..=maxw {
+            let input = format!("width={} html={}", w, html);
+            rep.case(&input);
+            let h = html.clone();
+            let strict = match panic::catch_unwind(move || config::plain().string_from_read(h.as_bytes(), w)) { Ok(x) => x.ok(), Err(_) => { rep.found(&input, "panic (plain)"); continue; } };
+            if let Some(s) = &strict { if let Some(l) = s.lines().find(|l| UnicodeWidthStr::width(*l) > w) { rep.found(&input, &format!("line {:?} is {} columns wide", l, UnicodeWidthStr::width(l))); continue; } }
+            let h = html.clone();
+            match panic::catch_unwind(move || config::plain().allow_width_overflow().string_from_read(h.as_bytes(), w)) {
+                Err(_) => { rep.found(&input, "panic (allow_width_overflow)"); continue; }
+                Ok(Err(e)) => { rep.found(&input, &format!("error {:?} although width overflow is allowed", e)); continue; }
+                Ok(Ok(o)) => if let Some(s) = &strict { if *s != o { rep.found(&input, &format!("allow_width_overflow changed a rendering that fits: {:?} vs {:?}", s, o)); continue; } },
+            }
+            let h = html.clone();
+            if let Ok(Ok(o)) = panic::catch_unwind(move || config::with_decorator(TrivialDecorator::new()).allow_width_overflow().string_from_read(h.as_bytes(), w)) {
+                let got: String = o.chars().filter(|c| !c.is_whitespace()).collect();
+                if got != text { rep.found(&input, &format!("trivial decorator: output characters {:?}, document characters {:?}", got, text)); }
             }
         }
     }
